@@ -1524,6 +1524,12 @@ where
         let AttributeOp { selector, action } = op;
         let dict = self.dict.clone();
 
+        if action.is_constructive() {
+            // make sure that the leaf can be reached
+            // before any sequence or item is created along the way
+            self.check_constructive_path(&selector)?;
+        }
+
         let mut obj = self;
         for (i, step) in selector.iter().enumerate() {
             match step {
@@ -1584,6 +1590,52 @@ where
             }
         }
         unreachable!()
+    }
+
+    /// Check that a constructive operation can navigate the given selector,
+    /// creating missing sequences and the next item of existing ones,
+    /// without changing the object.
+    fn check_constructive_path(&self, selector: &AttributeSelector) -> ApplyResult {
+        // `None` once inside a data set which does not exist yet
+        let mut obj = Some(self);
+        for (i, step) in selector.iter().enumerate() {
+            let AttributeSelectorStep::Nested { tag, item } = step else {
+                break;
+            };
+            let num_items = match obj.and_then(|obj| obj.entries.get(tag)) {
+                Some(e) => {
+                    let items = e.items().ok_or_else(|| ApplyError::NotASequence {
+                        selector: selector.clone(),
+                        step_index: i as u32,
+                    })?;
+                    obj = items.get(*item as usize);
+                    items.len()
+                }
+                None => {
+                    let vr = self
+                        .dict
+                        .by_tag(*tag)
+                        .and_then(|entry| entry.vr().exact())
+                        .unwrap_or(VR::UN);
+                    if vr != VR::SQ && vr != VR::UN {
+                        return Err(ApplyError::NotASequence {
+                            selector: selector.clone(),
+                            step_index: i as u32,
+                        });
+                    }
+                    obj = None;
+                    0
+                }
+            };
+            // only existing items and the next one can be selected
+            if *item as usize > num_items {
+                return Err(ApplyError::MissingSequence {
+                    selector: selector.clone(),
+                    step_index: i as u32,
+                });
+            }
+        }
+        Ok(())
     }
 
     fn apply_leaf(&mut self, tag: Tag, action: AttributeAction) -> ApplyResult {
